@@ -119,6 +119,23 @@ def gen_big_datagram_case(rnd):
     return 15, ("none", 0), transport, model_ops, [(None, [])], False, e2e_ops
 
 
+def gen_inplace_reload_case(rnd):
+    """the mapping file rewritten in place by a configuration of EXACTLY the same length, its modification time put back: a reload
+    must still take the new content (and report an invalid one)"""
+    word_a, word_b = rnd.choice([(b"first", b"other"), (b"alpha", b"omega"), (b"aaaa", b"bbbb")])
+    def cfg(w, ttl=0):
+        return (None, [GM.rule(b"same.*", b"same_" + w, help=b"r0", labels=[(b"tag", w)])])
+    a, b = cfg(word_a), cfg(word_b)
+    assert len(GM.to_yaml(a)) == len(GM.to_yaml(b))
+    bad = (None, [GM.rule(b"same.*", b"same-" + word_a, help=b"r0", labels=[(b"tag", word_a)])])          # same length, invalid name
+    seq = rnd.choice([[a, b, a], [a, b, bad, b], [b, bad, a]])
+    ops, cfgs = [], []
+    for k, c in enumerate(seq):
+        ops.append(GM.load_op(c)); cfgs.append(None if c is bad else c)
+        ops += [PE.I(b"same.x%d:1|c" % k), "G"]
+    return 15, rnd.choice([("none", 0), ("lru", 1000)]), rnd.choice(["tcp", "udp", "unixgram"]), ops, cfgs, rnd.choice(["inplace", "inplace-sighup"])
+
+
 def gen_c09_case(rnd):
     """all 16 parser flag sets as the binary's --[no-]statsd.parse-* flags; every datum in its four renderings"""
     import gen_line as GL
@@ -262,7 +279,7 @@ def replay_case(rep, pid, path):
     if "transport" not in rp or "ops" not in rp or any(o.startswith("...") for o in rp["ops"]):
         return False
     cfgs = [None if n_ is None else (None, [None] * n_) for n_ in rp.get("rules_per_config", [])]
-    case = (rp["flags"], tuple(rp["cache"]), rp["transport"], rp["ops"], cfgs, rp.get("reload_by") == "SIGHUP", rp.get("e2e_ops"))
+    case = (rp["flags"], tuple(rp["cache"]), rp["transport"], rp["ops"], cfgs, (rp.get("reload_by") if str(rp.get("reload_by", "")).startswith("inplace") else rp.get("reload_by") == "SIGHUP"), rp.get("e2e_ops"))
     run(rep, pid, "quick", rep.seed, key="e2e_replay", cases=[case])
     return True
 
@@ -278,7 +295,7 @@ def run(rep, pid, tier, seed, n_quick=24, n_thorough=600, gen=None, key="e2e", c
     cases = [tuple(c) + ((None,) if len(c) == 6 else ()) for c in cases]
     lines = [PE.case_line(fl, c[0], c[1], ops) for fl, c, tr, ops, _, _, _ in cases]
     impl, model = PE.run_cases(pid, lines, tag=key)
-    e2e_lines = [" | ".join([f"{fl} {c[0]} {c[1]} {tr}" + (" sighup" if hup else "")] + (eops or ops)) for fl, c, tr, ops, _, hup, eops in cases]
+    e2e_lines = [" | ".join([f"{fl} {c[0]} {c[1]} {tr}" + ((" " + hup) if isinstance(hup, str) else (" sighup" if hup else ""))] + (eops or ops)) for fl, c, tr, ops, _, hup, eops in cases]
     obs = run_e2e(pid, e2e_lines, par=(16 if gen is gen_ttl_case else None), tag=key)
     # what the parser's own counters must show: the line model, per sent line
     pairs = [(fl, vf.unhex(o[2:])) for fl, c, tr, ops, _, _, _ in cases for o in ops if o.startswith("I ")]
@@ -311,7 +328,7 @@ def run(rep, pid, tier, seed, n_quick=24, n_thorough=600, gen=None, key="e2e", c
                 ops = ops[:3] + ["... %d more ..." % (len(ops) - 6)] + ops[-3:]
             if len(rep.violations) < 5:
                 rep.violation("end to end (binary over %s): %s" % (tr, d[1]),
-                              dict(flags=fl, cache=list(c), transport=tr, reload_by=("SIGHUP" if hup else "/-/reload"), ops=ops, e2e_ops=(eops if eops and len(eops) < 50 else None),
+                              dict(flags=fl, cache=list(c), transport=tr, reload_by=(hup if isinstance(hup, str) else ("SIGHUP" if hup else "/-/reload")), ops=ops, e2e_ops=(eops if eops and len(eops) < 50 else None),
                                    rules_per_config=[None if c_ is None else len(c_[1]) for c_ in case[4]], op_index=d[0], observed=d[2], predicted=d[3],
                                    readable=[("I " + repr(vf.unhex(o[2:]))[1:]) if o.startswith("I ") else o[:1] for o in ops],
                                    how_to_replay="bin/check <ID> --replay <this file> re-runs the case against the binary built from /repo (harness/cmd/hx/e2e.go starts it, sends the lines, scrapes /metrics)"))
@@ -375,14 +392,27 @@ def run_listener_scenarios(rep, pid, tier, seed):
     relays = [(tr, rnd.choice(payloads), None) for tr in ("udp", "tcp", "unixgram")] if tier == "quick" else [(tr, p_, None) for tr in ("udp", "tcp", "unixgram") for p_ in payloads]
     relays += [(tr, payloads[-1], rnd.choice([16, 23, 40, 64])) for tr in (("udp",) if tier == "quick" else ("udp", "tcp", "unixgram", "udp"))]
     streams = [gen_stream(rnd) for _ in range(6 if tier == "quick" else 200)]
-    cases = ["B %d %d %d" % b for b in bursts] + ["R %s %s%s" % (tr, vf.hexs(p_), "" if pl is None else " %d" % pl) for tr, p_, pl in relays] + ["F " + vf.hexs(x) for x in streams if x]
     streams = [x for x in streams if x]
+    # some senders pause in the middle of the stream (mostly mid-line): segmentation in time must not change the framing
+    stalls = {}
+    pauses = [1200, 2500] if tier == "quick" else [1200, 2500, 5000, 11000, 31000, 65000, 125000]
+    for ms in pauses:
+        k = rnd.randrange(len(streams))
+        while k in stalls:
+            k = rnd.randrange(len(streams))
+        stalls[k] = (rnd.randrange(1, len(streams[k])) if len(streams[k]) > 1 else 1, ms)
+    def fcase(k, x):
+        if k in stalls:
+            cut, ms = stalls[k]
+            return "F %s %s %d" % (vf.hexs(x[:cut]), vf.hexs(x[cut:]) or "-", ms)
+        return "F " + vf.hexs(x)
+    cases = ["B %d %d %d" % b for b in bursts] + ["R %s %s%s" % (tr, vf.hexs(p_), "" if pl is None else " %d" % pl) for tr, p_, pl in relays] + [fcase(k, x) for k, x in enumerate(streams)]
     obs = run_e2e(pid, cases, par=8, tag="listener_e2e")
     # TCP framing: what the listener model says about each stream
     d = vf.tmpdir(pid)
     vf.write_lines(f"{d}/tcp_e2e.cases", ["T %s 1 0" % vf.hexs(x) for x in streams])
     tmodel = vf.run_model("listener", f"{d}/tcp_e2e.cases")
-    for x, o, m in zip(streams, obs[len(bursts) + len(relays):], tmodel):
+    for k, (x, o, m) in enumerate(zip(streams, obs[len(bursts) + len(relays):], tmodel)):
         rep.count(1)
         o = o[0]
         if not o.startswith("F lines="):
@@ -395,8 +425,10 @@ def run_listener_scenarios(rep, pid, tier, seed):
         if f != want:
             rep.violation("end to end: the binary's TCP listener counts lines / over-long lines / connections differently from the listener model",
                           dict(stream=repr(x[:300]) + ("..." if len(x) > 300 else ""), stream_hex=vf.hexs(x), observed=f, predicted=want,
+                               sender_pause=None if k not in stalls else dict(after_bytes=stalls[k][0], milliseconds=stalls[k][1]),
                                how="statsd_exporter --statsd.listen-tcp, the stream written on one connection which is then closed"))
     rep.extra["e2e_tcp_streams"] = len(streams)
+    rep.extra["e2e_tcp_sender_pauses_ms"] = sorted(ms for _, ms in stalls.values())
     overflowed = 0
     for b, o in zip(bursts, obs):
         o = o[0]
@@ -456,14 +488,15 @@ def run_liveness(rep, pid, items, limit, seed):
     rnd = random.Random(seed * 131 + 7)
     items = items[:limit]
     cases, meta = [], []
-    for lop, lines, text in items:
+    for item in items:
+        lop, lines, text = item[:3]
         tr, hup = rnd.choice(["tcp", "udp", "unixgram"]), rnd.random() < 0.5
         ops = [lop] + [PE.I(l) for l in lines if b"\n" not in l][:25] + ["G", lop, "G"]
         cases.append(" | ".join([f"15 none 0 {tr}" + (" sighup" if hup else "")] + ops))
-        meta.append((tr, hup, text, ops))
+        meta.append((tr, hup, text, ops, item[3] if len(item) > 3 else None))
     obs = run_e2e(pid, cases, par=8, tag="liveness")
     bad = 0
-    for (tr, hup, text, ops), o in zip(meta, obs):
+    for (tr, hup, text, ops, kf), o in zip(meta, obs):
         rep.count(len(ops))
         what = None
         if o and o[0] == "L err exit":
@@ -474,6 +507,8 @@ def run_liveness(rep, pid, items, limit, seed):
             what = "a scrape of the binary fails under a configuration that loads"
         elif not [x for x in o if x.startswith("L ")][-1].startswith("L ok"):
             what = "reloading the file the binary was started with is not counted as a successful reload"
+        if what and kf and rep.known(kf):
+            continue
         if what:
             bad += 1
             if len(rep.violations) < 5:
@@ -500,3 +535,39 @@ def run_relay_latency(rep, pid):
         rep.violation("end to end: a buffered line is not forwarded at the relay's next one-second tick",
                       dict(latencies_ms=ms, how="statsd_exporter --statsd.relay.address=<local sink>; 7 lines sent 300 ms apart over UDP; each must arrive within a second "
                                            "(1.5 s allowed); -1 = never arrived within 2.5 s of the last send"))
+
+
+def run_tcp_pauses(rep, pid, seed, pauses):
+    """TCP streams whose sender falls silent in the middle (mostly mid-line) for each of the given numbers of milliseconds:
+    the lines the binary counts must be the listener model's.  True when a violation was reported."""
+    ok, out = build_binary()
+    if not ok:
+        return False
+    rnd = random.Random(seed * 131 + 7)
+    streams = []
+    while len(streams) < len(pauses):
+        x = gen_stream(rnd)
+        if len(x) > 1 and len(x) < 3000:
+            streams.append(x)
+    cuts = [rnd.randrange(1, len(x)) for x in streams]
+    cases = ["F %s %s %d" % (vf.hexs(x[:c]), vf.hexs(x[c:]), ms) for x, c, ms in zip(streams, cuts, pauses)]
+    obs = run_e2e(pid, cases, par=len(cases), tag="tcp_pauses")
+    d = vf.tmpdir(pid)
+    vf.write_lines(f"{d}/tcp_pauses.cases", ["T %s 1 0" % vf.hexs(x) for x in streams])
+    tmodel = vf.run_model("listener", f"{d}/tcp_pauses.cases")
+    bad = False
+    for x, c, ms, o, m in zip(streams, cuts, pauses, obs, tmodel):
+        rep.count(1)
+        o = o[0]
+        if not o.startswith("F lines="):
+            continue
+        f = {k: int(v) for k, v in (y.split("=") for y in o.split()[1:])}
+        mm = dict(y.split("=", 1) for y in m.split())
+        want = dict(lines=int(mm["L"]), toolong=int(mm["toolong"]), conns=1, errors=0)
+        if f != want:
+            bad = True
+            rep.violation("end to end: a TCP sender that pauses in the middle of its stream has its lines framed differently (lines lost, cut in two, or the connection closed)",
+                          dict(stream=repr(x[:300]), stream_hex=vf.hexs(x), sender_pause=dict(after_bytes=c, milliseconds=ms), observed=f, predicted=want,
+                               how="statsd_exporter --statsd.listen-tcp; the first part of the stream, the pause, the rest, then the connection is closed"))
+    rep.extra["tcp_pause_search_ms"] = list(pauses)
+    return bad
